@@ -3,12 +3,61 @@
 CFG = {
     "check": "C03_Check",
     "props": ["C03_Props"],
-    "chunk": 30,
-    "level_text": "TBD",
-    "level_note": "TBD",
-    "rule": "TBD",
-    "trusted": [],
-    "assumptions": [],
+    "chunk": 21,
+    "level_text": (
+        "Theorems in Coq 8.16 over an executable model of ds/tree/btree (items = (key, payload) ordered by key; find, "
+        "split, maybeSplitChild, insert, growChildAndRemove, remove, root split / collapse, the length field, get / min / "
+        "max, node.iterate in both directions with start, stop, includeStart and an arbitrary callback, the ten scan "
+        "entry points incl. AscendGreater / DescendLess, and the wrapper's Insert / Update / UpdateOrInsert / Delete / "
+        "Get / iterWalk with filter and limit): for every degree >= 2 and every operation list (unbounded, as long as "
+        "the set stays below 2^31 items so that the model's constant recursion fuel provably suffices) each operation "
+        "returns exactly what a strictly sorted key->item list returns (most recently stored item, replaced / removed "
+        "item, first n matching items in scan order from any pivot incl. absent / below min / above max, limit 0, "
+        "negative limit = panic, empty tree) and the tree stays ordered and balanced (occupancy degree-1..2*degree-1, "
+        "all leaves at one depth, length = item count).  Proof is the right level: the quantifier is over unboundedly "
+        "many histories and tree shapes and the code is a pure data structure; the repository's tests assert none of it.  "
+        "The model is tied to the source on every run: random and boundary-biased histories on the real wrapper and on "
+        "the real inner tree (degrees 2,3,4,8; 5,16,32 in the thorough tier), clone programs on up to 4 handles and "
+        "concurrent callers of one wrapper are executed, and Coq evaluates on every observed case (vm_compute) that "
+        "each returned value is the model's and that the implementation's ACTUAL nodes, read through the verif hook "
+        "VerifShape, satisfy Coq's own ordered / balanced / flatten = sorted map / length predicates and upward-closed "
+        "copy-on-write ownership.  case_sound (accepted by the model => satisfies the sorted-map monitor) is a theorem "
+        "proved through the refinement, not by construction."
+    ),
+    "level_note": (
+        "Trusted: Coq kernel + vm_compute; the hand-written model C03_Model.v (tied by the correspondence check; node-level "
+        "functions are the prototypes BTmodel/BTI/BTDs, which were validated shape-for-shape against the code, with the payload "
+        "carried along); the Go harness incl. its supervisor that turns a crashed / hung child process into a failing case; "
+        "the hooks VerifShape / VerifInner.  Partial: clone isolation is proved as an ownership discipline on an abstract heap "
+        "(write through one handle leaves every other handle's tree unchanged, invariant kept, Clone establishes it: "
+        "c03_write_isolated, c03_write_keeps_ownership, c03_clone_establishes_ownership); that btree.go's own heap-level write "
+        "functions with the shared free list follow that discipline is NOT proved (PENDING in C03_Props.v) and is carried by "
+        "the clone-program correspondence (independent values per handle after every write, ownership flags closed upwards).  "
+        "The concurrent clause is reduced to sequential histories by the lock-discipline lint (Insert/Update/UpdateOrInsert/"
+        "Delete/Get hold rw for the whole body) plus a run-time check with concurrent callers on disjoint key classes; "
+        "iterWalk takes RLock only after allocating its result slice (it touches no shared state before), which the "
+        "syntactic lint cannot express and is therefore an assumption.  The size bound 2^31 is a restriction of the theorems "
+        "(fuel), not of the code.  No axioms."
+    ),
+    "rule": (
+        "one case = one history (wrapper: 20-100 ops; inner tree: 25-150 ops per degree; sweep = all four / all ten scans from "
+        "every pivot position of one tree; clone program: up to 4 handles, 25-75 steps with snapshots of all handles; concurrent: "
+        "2-4 goroutines on disjoint key classes of one wrapper) generated from its own seed; non-trivial = at least 4 steps; "
+        "distinct = distinct Coq term (ops + observed results + observed shapes)"
+    ),
+    "trusted": [
+        "Go harness cmd/c03 (generators, recover wrappers, child-process supervisor), items type kv{k,p} with Less on k",
+        "verif hooks (*btree.BTree).VerifShape (items / children / ownership flag per node, degree, length field) and (*tree.BTree).VerifInner",
+        "lock-discipline lint (syntactic) for the five wrapper methods that lock in their first statement",
+    ],
+    "assumptions": [
+        "each wrapper method is one critical section of rw (lint: Insert/Update/UpdateOrInsert/Delete under Lock, Get under RLock; "
+        "iterWalk: RLock taken after the local slice allocation, before the tree is touched - read from the source, not lintable)",
+        "sync.RWMutex gives writers exclusion and readers a consistent tree (Go runtime)",
+        "Item.Less is a strict weak order on keys (the harness's kv type compares integer keys)",
+        "trees hold fewer than 2^31 items (the model's recursion fuel is proved sufficient below that size)",
+        "heap-level copy-on-write functions follow the ownership discipline of C03_Cow.v (not proved; checked on clone programs)",
+    ],
     "lint": [
         {"file": "ds/tree/btree.go", "recv": "BTree", "methods": ["Insert", "Update", "UpdateOrInsert", "Delete"], "lock": "rw", "mode": "lock"},
         {"file": "ds/tree/btree.go", "recv": "BTree", "methods": ["Get"], "lock": "rw", "mode": "rlock"},
